@@ -285,6 +285,14 @@ func (b *EndpointBuilder) WriteHash(h hash.Hash) {
 		h.Write(Separator)
 		h.WriteString(strconv.FormatBool(bool(b.proxy.Metadata.DisableHBONESend)))
 		h.Write(Separator)
+		// The gateways of a remote network are filtered by the IP families the proxy supports, and an
+		// ambient east-west gateway gets different endpoints than a waypoint: both are part of the key.
+		h.WriteString(strconv.FormatBool(b.proxy.SupportsIPv4()))
+		h.Write(Separator)
+		h.WriteString(strconv.FormatBool(b.proxy.SupportsIPv6()))
+		h.Write(Separator)
+		h.WriteString(strconv.FormatBool(b.proxy.IsAmbientEastWestGateway()))
+		h.Write(Separator)
 	}
 	h.WriteString(util.LocalityToString(b.locality))
 	h.Write(Separator)
